@@ -3,6 +3,7 @@ import glob
 import os
 
 from .. import harness
+from .structured import structured_program, template_line  # noqa: F401
 
 VERSIONS = harness.VERSIONS
 
@@ -234,6 +235,12 @@ def mutate_lines(lines, rng, frags=None):
             del lines[rng.randrange(len(lines))]
         elif r == 2:
             lines.insert(rng.randint(0, len(lines)), lines[rng.randrange(len(lines))])
+        elif r in (3, 4) and rng.random() < .3:
+            k = rng.randint(0, len(lines))
+            if rng.random() < .5 and lines:
+                lines[min(k, len(lines) - 1)] = template_line(rng)
+            else:
+                lines.insert(k, template_line(rng))
         elif r in (3, 4):
             i = rng.randrange(len(lines))
             line = lines[i]
